@@ -84,7 +84,7 @@ func Run(b *Bins, root, side string, l *scen.Lifetime, idx int) (*Result, error)
 	}
 	cmd := exec.Command(bin, args...)
 	cmd.Dir = root // real cwd is irrelevant to the library (Getwd is shimmed)
-	env := []string{"VERIF_ROOT=" + root, "VERIF_LIFE=" + lifePath, "VERIF_OUT=" + outPath, "PATH=/usr/bin:/bin", "HOME=/nonexistent"}
+	env := []string{"VERIF_ROOT=" + root, "VERIF_LIFE=" + lifePath, "VERIF_OUT=" + outPath, "VERIF_NOMINAL=" + scen.NominalDir, "PATH=/usr/bin:/bin", "HOME=/nonexistent"}
 	if l.Race {
 		env = append(env, "GORACE=atexit_sleep_ms=0 history_size=2")
 	}
@@ -161,22 +161,20 @@ func parseRaces(stderr string) (lib, harness []string) {
 	return
 }
 
-// topFrameInLibrary: the access itself (innermost non-runtime frame) is in the
-// go-snaps module and not in an injected harness file.
+// topFrameInLibrary: the access itself (innermost frame that is neither
+// runtime, standard library nor third-party) is in the go-snaps module and not
+// in the injected harness.
 func topFrameInLibrary(block string) bool {
-	lines := strings.Split(block, "\n")
-	for i := 0; i < len(lines); i++ {
-		l := strings.TrimSpace(lines[i])
-		if strings.HasPrefix(l, "/") && strings.Contains(l, ".go:") {
-			if strings.Contains(l, "/zz_world_") || strings.Contains(l, "/verif/") {
-				return false
-			}
-			if strings.Contains(l, "/repo/") || strings.Contains(l, "go-snaps") {
-				return true
-			}
-			if strings.Contains(l, "/go/src/") || strings.Contains(l, "/pkg/mod/") {
-				continue // runtime / std / third-party frame: look further out
-			}
+	for _, raw := range strings.Split(block, "\n") {
+		l := strings.TrimSpace(raw)
+		if !strings.HasSuffix(l, ")") || strings.HasPrefix(l, "/") || strings.Contains(l, " ") {
+			continue // not a function line
+		}
+		switch {
+		case strings.Contains(l, "snaps_test.") || strings.HasPrefix(l, "verif/"):
+			return false
+		case strings.HasPrefix(l, "github.com/gkampitakis/go-snaps/"):
+			return true
 		}
 	}
 	return false
